@@ -414,6 +414,11 @@ func validateSecurityRequirement(ctx context.Context, input *RequestValidationIn
 	}
 	sort.Strings(names)
 
+	if len(securityRequirement) == 0 {
+		// the empty requirement asks for no authentication
+		return nil
+	}
+
 	// Get authentication function
 	options := input.Options
 	if options == nil {
